@@ -84,6 +84,50 @@ Corollary apply_range_never_fails {T} (l : list T) r :
   exists v, apply_range l r = Ok v.
 Proof. intros. eexists. apply apply_range_is_select; assumption. Qed.
 
+Lemma resolve_index_m_norm idx len : 0 <= len -> resolve_index_m idx len = norm idx len.
+Proof. intros H. unfold resolve_index_m, norm. destruct (idx <? 0); lia. Qed.
+
+(* unconditional: the code's control flow over mathematical integers is the
+   documented rule, for every bound whatsoever *)
+Theorem apply_range_m_is_select {T} (l : list T) r : apply_range_m l r = select r l.
+Proof.
+  unfold apply_range_m, select.
+  destruct l as [|x0 l0] eqn:El; [reflexivity|].
+  rewrite <- El in *. set (len := Z.of_nat (length l)) in *.
+  assert (Hpos: 0 < len) by (subst len l; cbn [length]; lia).
+  assert (Hne: (len =? 0) = false) by (apply Z.eqb_neq; lia). rewrite Hne.
+  destruct r as [i | a b inc].
+  - rewrite resolve_index_m_norm by lia. rewrite nth_error_firstn1_skipn.
+    destruct (nth_error l _); reflexivity.
+  - assert (Hs: match a with None => 0 | Some s => resolve_index_m s len end = range_start a len).
+    { unfold range_start. destruct a; [apply resolve_index_m_norm; lia | reflexivity]. }
+    rewrite Hs. set (s := range_start a len).
+    assert (Hsb: 0 <= s <= len).
+    { subst s; unfold range_start; destruct a; [apply norm_bounds|]; lia. }
+    assert (He: match b with None => len | Some e => resolve_index_m e len end
+                = match b with Some x => norm x len | None => len end).
+    { destruct b; [apply resolve_index_m_norm; lia | reflexivity]. }
+    rewrite He. unfold range_end.
+    set (e0 := match b with Some x => norm x len | None => len end).
+    assert (Heb: 0 <= e0 <= len) by (subst e0; destruct b; [apply norm_bounds|]; lia).
+    set (e := Z.min len (e0 + (if inc then 1 else 0))).
+    replace (Z.min (if inc then e0 + 1 else e0) len) with e by (subst e; destruct inc; lia).
+    destruct (len <=? s) eqn:Hls.
+    + apply Z.leb_le in Hls.
+      destruct (s <? e) eqn:Hlt; [apply Z.ltb_lt in Hlt; subst e; lia | reflexivity].
+    + destruct (e <=? s) eqn:Hes.
+      * apply Z.leb_le in Hes. destruct (s <? e) eqn:Hlt; [apply Z.ltb_lt in Hlt; lia | reflexivity].
+      * apply Z.leb_gt in Hes.
+        assert (Hlt: (s <? e) = true) by (apply Z.ltb_lt; lia). rewrite Hlt. reflexivity.
+Qed.
+
+(* machine-level faithfulness: with checked isize arithmetic and real slice
+   indexing nothing overflows or panics, and the result is the same *)
+Corollary apply_range_checked_is_m {T} (l : list T) r :
+  range_in_isize r = true -> Z.of_nat (length l) <= isize_max ->
+  apply_range l r = Ok (apply_range_m l r).
+Proof. intros. rewrite apply_range_m_is_select. apply apply_range_is_select; assumption. Qed.
+
 (* ---- laws of the documented rule ------------------------------------- *)
 
 Lemma select_nil {T} r : @select T r [] = [].
